@@ -153,7 +153,19 @@ func specAnswer(ctx *Ctx, s *ast.Schema, sj map[string]interface{}) (map[string]
 	if err != nil {
 		return nil, fmt.Errorf("the introspection query pebbles sends is not valid for the service: %v", err)
 	}
-	res, err := ctx.Driver.Call(map[string]interface{}{"op": "c16.spec", "schema": sj, "sel": selJSON(expandSpreads(op.SelectionSet)), "vars": map[string]interface{}{}})
+	// the selection the C15 theorems speak about (Spec.stdSel) is the query the real code sends
+	if !stdSelChecked {
+		ss, err := ctx.Driver.Call(map[string]interface{}{"op": "c15.stdsel"})
+		if err != nil {
+			return nil, err
+		}
+		if hx.Canon(ss["sel"]) != hx.Canon(selJSON(expandSpreads(op.SelectionSet))) {
+			return nil, fmt.Errorf("Spec.stdSel is not the selection set of the introspection query introspection/remote.go sends")
+		}
+		stdSelChecked = true
+		ctx.Rep.Count("stdsel:lean=real-query")
+	}
+	res, err := ctx.Driver.Call(map[string]interface{}{"op": "c15.std", "schema": sj})
 	if err != nil {
 		return nil, err
 	}
@@ -168,6 +180,8 @@ func specAnswer(ctx *Ctx, s *ast.Schema, sj map[string]interface{}) (map[string]
 	}
 	return lean, nil
 }
+
+var stdSelChecked bool
 
 var c15Mutations = []string{"null-schema", "no-query-type", "empty-query-name", "drop-type", "possible-no-name", "iface-unknown",
 	"bad-json-type", "unknown-kind", "dup-type", "directive-no-name", "wrong-length-0", "wrong-length-2", "truncate-oftype",
@@ -514,6 +528,14 @@ func c15Check(ctx *Ctx, idx int, cs c15Case) {
 		}
 		ctx.Rep.Traces++
 	}
+	inFragment := false
+	if ctx.Driver != nil && cs.Kind == "spec" {
+		sup, err := ctx.Driver.Call(map[string]interface{}{"op": "c15.supported", "schema": sj})
+		if err == nil && sup["schema"] == true {
+			inFragment = true
+			ctx.Rep.Count("fragment:supportedC15")
+		}
+	}
 	deep := maxWrapperDepth(s) > 7
 	var real c15Out
 	var asked string
@@ -531,6 +553,16 @@ func c15Check(ctx *Ctx, idx int, cs c15Case) {
 	}
 
 	// ---- property oracle
+	if inFragment {
+		// inside the feature set of C15_rebuild_partial nothing may differ, classes do not apply
+		want, got := normSchemaJSON(sj), normSchemaJSON(real.Schema)
+		if real.Outcome != "ok" || hx.Canon(want) != hx.Canon(got) {
+			var ds []jdiff
+			jsonDiff(want, got, nil, &ds)
+			ctx.Rep.Fail(hx.Failure{Kind: "property-fails", Detail: "schema inside supportedC15 (where C15_rebuild_partial proves the model faithful) is not reconstructed faithfully by the real code: " + real.Outcome + " " + real.Err,
+				Case: cs, Index: idx, Impl: map[string]interface{}{"differences(source→reconstruction)": firstN(ds, 4)}})
+		}
+	}
 	switch {
 	case real.Outcome == "panic":
 		c := ""
@@ -659,14 +691,14 @@ func runC15(ctx *Ctx) error {
 		c15Check(ctx, idx, c15Case{Kind: "legacy-defaults", SDL: sdl, Features: []string{"corpus"}})
 		idx++
 	}
-	n := 160
+	n := 700
 	if ctx.Thorough() {
-		n = 4000
+		n = 12000
 	}
 	for i := 0; i < n; i++ {
 		r := ctx.Rand.Fork()
 		prof := igWild
-		if i%3 == 0 {
+		if i%2 == 0 {
 			prof = igSafe
 		}
 		gs, err := igGenerate(r, prof)
